@@ -57,8 +57,8 @@ Clause(c) == IF c.rt = "df" THEN TableClause(c) ELSE RasterClause(c)
 
 \* ---- step-level comparison with the transcription (never a violation, only drift)
 SiOK(c) ==
-  IF "strip" \in CODEVARIANT
-  THEN /\ Range(c.si) = {k \in 1..Len(c.z) : Finite(c.z[k])}
+  IF "strip" \in CODEVARIANT \/ "dropneginf" \in CODEVARIANT
+  THEN /\ Range(c.si) = {k \in 1..Len(c.z) : IF "strip" \in CODEVARIANT THEN Finite(c.z[k]) ELSE c.z[k] # NINF}
        /\ Len(c.si) = Cardinality(Range(c.si))
        /\ \A k \in 1..Len(c.si) - 1 : c.z[c.si[k]] <= c.z[c.si[k + 1]]
   ELSE IsSortingPerm(c.si, c.z)
